@@ -192,6 +192,7 @@ def value_nodes():
         str_values().map(lambda s: ["raw", s]),
         st.integers(-10 ** 20, 10 ** 20).map(lambda v: ["raw", v]),
         st.floats(allow_nan=False, allow_infinity=False).map(lambda v: ["raw", v]),
+        st.sampled_from([0.0, 1.0, -1.0, 2.0, 1e16, 1e-7]).map(lambda v: ["raw", v]),
         st.decimals(allow_nan=False, allow_infinity=False, places=None).map(lambda d: ["pyv", "decimal", str(d)]),
         st.booleans().map(lambda v: ["raw", v]),
         st.just(["raw", None]),
@@ -313,7 +314,8 @@ def expected_matches(v, group, cls, pos):
         return tok.kind == "num" and tok.text.isdigit() and sign * int(tok.text) == v
     if isinstance(v, float):
         try:
-            return tok.kind == "num" and sign * float(tok.text) == v
+            # a float is a real literal (1.0, 1e+16): the integer token 1 is another value in SQL (1/2 is 0, 1.0/2 is 0.5)
+            return tok.kind == "num" and sign * float(tok.text) == v and any(c in tok.text for c in ".eE")
         except ValueError:
             return False
     if isinstance(v, decimal.Decimal):
